@@ -20,7 +20,8 @@ M_HEADER = mlevel.HEADER + "\nFrom TV Require Import Oracle.MasterOracle."
 REASONS = {101: "master-output-differs-from-model", 75: "scheduler-sleeps-while-an-interrupt-is-owed",
            76: "interrupt-handler-failed", 77: "interrupting-device-never-updated-again",
            78: "interrupting-device-updated-only-later", 46: "tick-times-decrease", 47: "ticks-overlap",
-           48: "dispatch-outside-its-tick-or-with-wrong-time"}
+           48: "dispatch-outside-its-tick-or-with-wrong-time",
+           79: "scheduler-or-component-task-died-after-the-interrupt"}
 
 
 def m_part(ck, tier, rng):
@@ -71,6 +72,13 @@ def s_part(ck, tier, rng):
                      2: dict(order=[(4, "dev"), (5, 3)], conns=[(4, 1, 5, 1), (5, 1, EXP, 1)]),
                      3: dict(order=[(6, "dev"), (7, "dev")], conns=[(EXT, 1, 6, 1), (7, 1, EXP, 1)])},
          {4: (9, 500_000_000, 1), 6: (9, 300_000_000, 0), 7: (9, 400_000_000, 1), 8: (9, 300_000_000, 0)}),
+        # the interrupted device holds the only pending wakeup (a one-shot callback): an interrupt landing in the
+        # event-loop iteration in which the master's sleep ends must not leave the master without anything to wait for
+        ("oneshot", {1: dict(order=[(3, "dev"), (4, "dev")], conns=[(3, 1, 4, 1)])},
+         {3: (7, 300_000_000, 2), 4: (7, 300_000_000, 0)}),
+        ("oneshot-nested", {1: dict(order=[(3, 2)], conns=[]),
+                            2: dict(order=[(4, "dev"), (5, "dev")], conns=[(4, 1, 5, 1)])},
+         {4: (7, 300_000_000, 2), 5: (7, 300_000_000, 0)}),
     ]
     if tier == "thorough":
         for _ in range(12):
@@ -97,6 +105,8 @@ def s_part(ck, tier, rng):
         ck.count(f"s:{c['name']}:{c['device']}:{c['step']}", mid)
         if c["run"]["error"]:
             bad.setdefault(i, []).append(77)
+        if c["run"]["errors"]:
+            bad.setdefault(i, []).append(79)
     ck.coverage.update(injection_runs=len(cases), injection_configs=len(configs))
     c = cases[len(cases) // 2]
     ck.sample(dict(injection=dict(config=c["name"], device=c["device"], step=c["step"], inj=c["inj"],
@@ -136,7 +146,7 @@ def main(tier, seed):
                 ck.report(REASONS[code] + ("-nested" if key[1] else ""),
                           f"interrupt of device c{c['device']} injected at loop step {c['step']} ({c['name']}): {REASONS[code]}",
                           dict(kind="injection", cfg={str(k): v for k, v in c["cfg"].items()}, devs={str(k): v for k, v in c["devs"].items()},
-                               device=c["device"], step=c["step"], inj=c["inj"], error=c["run"]["error"],
+                               device=c["device"], step=c["step"], inj=c["inj"], error=c["run"]["error"], task_errors=c["run"]["errors"][:3],
                                updates=[(cc, t, rt) for (cc, t, _), rt in zip(c["run"]["trace"], c["run"]["trace_rt"])]))
     if not done:
         corr = [i for i in mbad if any(code not in (75, 76) for code in mbad[i])]
